@@ -17,15 +17,22 @@ func removeWhitespace(data string) (string, bool, error) {
 	}
 	// Bytes which are not valid UTF-8 are kept as they are, strings.Map would
 	// replace each of them with U+FFFD.
-	var sb strings.Builder
-	sb.Grow(len(data))
-	sb.WriteString(data[:i])
-	for i < len(data) {
-		r, w := utf8.DecodeRuneInString(data[i:])
-		if !unicode.IsSpace(r) {
-			sb.WriteString(data[i : i+w])
+	for i >= 0 {
+		var sb strings.Builder
+		sb.Grow(len(data))
+		sb.WriteString(data[:i])
+		for i < len(data) {
+			r, w := utf8.DecodeRuneInString(data[i:])
+			if !unicode.IsSpace(r) {
+				sb.WriteString(data[i : i+w])
+			}
+			i += w
 		}
-		i += w
+		data = sb.String()
+		// Removing the whitespace between two bytes which are not valid UTF-8 on
+		// their own can bring them together into a whitespace rune ("\xc2 \xa0"
+		// becomes U+00A0): go on until none is left, so the result is stable.
+		i = strings.IndexFunc(data, unicode.IsSpace)
 	}
-	return sb.String(), true, nil
+	return data, true, nil
 }
